@@ -44,7 +44,7 @@ ASSUME = ["'compiled once' is observed through the `=== <absolute file> ===` hea
 EXTERN = "vr_i64 :: (id: i64, v: i64) extern;"
 HEADER = re.compile(r"^=== (/.*) ===$", re.M)
 IMPORT_LINE = re.compile(r"^\S*::(\w+) :: #import\(\"(.*)\"\);$", re.M)
-ERR = re.compile(r"^error(?:\[[A-Z0-9]+\])?: (.*)(?:\n --> at (.*):(\d+):(\d+))?", re.M)
+ERR = re.compile(r"^error(?:\[[A-Z0-9]+\])?: (.*)(?:\n *--> at (.*):(\d+):(\d+))?", re.M)
 DIAG_CLASS = [
     ("missing", re.compile(r"couldn't be found")),
     ("noncapy", re.compile(r"must end in `\.capy`")),
@@ -685,6 +685,9 @@ def judge(case, root, c, ran):
     other = [e for e in errs if classify(e[0]) is None]
     if other:
         inconc.append(f"generator: case {case['idx']} rejected with a diagnostic that is not about imports: {other[0][0][:200]}")
+        return done()
+    if any(e[1] is None for e in errs):
+        inconc.append(f"case {case['idx']}: import diagnostic without a parsable location: {[e[0] for e in errs if e[1] is None][0][:200]}")
         return done()
     here, elsewhere = [], []
     for msg, loc, line in errs:
